@@ -178,7 +178,11 @@ class Ctx:
             "checker_cmd": f"./check {self.prop} --tier {self.tier}",
             "trusted_base": self.trusted_base or [
                 "rustc 1.97 nightly: type checking, MIR construction, const evaluation, trait resolution",
-                "espada-facts driver serialisation", "python rule library under /verif/sa and /verif/rules"],
+                "espada-facts driver serialisation", "python rule library under /verif/sa and /verif/rules",
+                "normalisation passes over the fact base (sa/desugar.py: std combinators / iterator pipelines with closures; "
+                "sa/inline.py: private helpers, jump threading): they rewrite nothing on the reference tree"],
+            "normalised_functions": {k: {"desugared": sorted(getattr(v, "desugared", {})), "inlined_into": sorted(getattr(v, "inlined", {}))}
+                                     for k, v in self._facts.items()},
             "fact_configs": {k: os.path.basename(v.fact_dir) for k, v in self._facts.items()},
             "notes": self.notes,
         }
